@@ -17,11 +17,12 @@ berlin = timezone("Europe/Berlin")
 
 # datetime.fromisoformat is lenient: it accepts any character as separator between date and time, one surplus character
 # after a complete time or offset ('00:000+01:00', '00:00:00x+01:00') and a trailing NUL. This is the shape of what we
-# accept: calendar or week date (extended or basic), 'T' or blank, time (reduced precision allowed), 'Z' or an offset.
+# accept: calendar or week date (extended or basic), 'T' or blank, time (reduced precision allowed), 'Z' or an offset
+# (fromisoformat also reads '+00:60' as +01:00 and ignores a fraction of a second in the offset: neither is a UTC offset).
 _DATETIME_WITH_OFFSET_PATTERN = re.compile(
-    r"(?:\d{4}-\d{2}-\d{2}|\d{8}|\d{4}-?W\d{2}(?:-?\d)?)[Tt ]"
+    r"(?:\d{4}-\d{2}-\d{2}|\d{8}|\d{4}-?W\d{2}-?[1-7])[Tt ]"
     r"\d{2}(?::?\d{2}(?::?\d{2}(?:[.,]\d+)?)?)?"
-    r"(?:[Zz]|[+-]\d{2}(?::?\d{2}(?::?\d{2}(?:\.\d+)?)?)?)?",
+    r"(?:[Zz]|[+-]\d{2}(?::?[0-5]\d(?::?[0-5]\d)?)?)?",
     re.ASCII,
 )
 
